@@ -26,6 +26,11 @@ CHECKS.update({
    text="General, First, Last and Threshold: for rule blocks of ANY length the loop is proved to compute every loaded rule's degree as weight x antecedent value on the outputs accumulated so far, to trigger exactly the rules the definition selects (count, positivity, threshold, comparator meaning) in order, to mark triggered only for positive degrees, to leave unloaded rules deactivated, to write nothing else, and (non-General) to reject batches before any selection. Highest, Lowest and Proportional are covered only by a bounded run-time stand-in (level B, random rule blocks of 1-8 rules with ties, zeros, NaN, unloaded/disabled rules), never counted as proved.",
    note=A_WIRE + " Callee contracts used: Rule.activate_with (proved in C06), Rule.trigger (proved in C07)."),
 })
+CHECKS.update({
+ "C06": dict(cat="proof", design="8/C06", tech="recursion-contract VCs (decreases on tree height) from the real AST of Antecedent.activation_degree; Rule.activate_with against it; static operator table; bounded run-time stand-in for text->tree",
+   text="Antecedent.activation_degree is verified against its own contract for expression trees of ANY shape: a proposition is the hedges applied from the one nearest the term outwards to the term's membership of the variable's value (output variable: aggregated activation of the term), `any` yields 1, a disabled variable 0, `and`/`or` are the block's conjunction/disjunction applied to (left, right) in that order; recursive calls are replaced by the contract with a decreasing height measure; no raise for a loaded well-formed tree; writes nothing. Rule.activate_with stores and returns weight x that value. Static: `and` binds tighter than `or`, both binary and left-associative in the operator table read from the AST. Bounded (B, not proved): text -> postfix -> tree (Function.infix_to_postfix and Antecedent.load) is checked on rules generated from the grammar against a reference evaluation of the generated tree.",
+   note=A_WIRE + " Interface fact used: Any.hedge is the constant 1 (C05). The shunting-yard stage has no inductive proof (bounded stand-in only)."),
+})
 TODO = {}
 def main():
     props = [json.loads(l) for l in open(os.path.join(HERE, "properties.jsonl"))]
